@@ -32,7 +32,7 @@ namespace adm {
       auto frame = findFrameNode(document.first_node());
       if (frame) {
         for (NodePtr node = frame->first_node(); node;
-             node = frame->next_sibling()) {
+             node = node->next_sibling()) {
           if (std::string(node->name()) == "frameHeader") {
             return parseFrameHeader(node);
           }
